@@ -472,6 +472,10 @@ def run(chk):
     chk.audit(PROPS)
     if chk.thorough and ok:
         chk.leanchecker([PROPS])
+    # the same claims for the C simulators: corollaries of C06's c_step_eq_python over the C handler bodies
+    # translated from c/csimulator.c on this run
+    import cgencheck
+    cgencheck.c_corollaries(chk, 'SkoolVerif.Props.C19C', bool(ok))
     delay_tables(chk, cmio)
     contend_funcs(chk, cmio, pagingtracer)
     config_tie(chk, cmio, pagingtracer, simutils)
